@@ -450,9 +450,8 @@ def execute(case, keep_text=False, after_fit=None):
 
             if kind == 'nestle_real':
                 # ground truth = whatever the real sampler returned
-                o = opt._nestle_output['solution']
-                truth = [{'samples': np.array(o['samples']).tolist(),
-                          'weights': np.array(o['weights']).tolist(),
+                truth = [{'samples': np.array(opt.get_samples(0)).tolist(),
+                          'weights': np.array(opt.get_weights(0)).tolist(),
                           'map': None, 'ml': None}]
                 out.bump('probes', 'real_nestle_run')
             else:
